@@ -726,16 +726,16 @@ def _penalty_is_scalar(model, rep):
 
 
 def _r5(model, rep):
-    """(a) the vector the solution is expanded into (x, or the vector a
-    helper allocates for it when x is omitted) must be able to hold the
-    solution: allocated with the dtype of the system (dtype=<matrix>.dtype,
-    result_type(...), or *_like an operand) - a default-float vector drops
-    the imaginary part of a complex solution at y[I] = sol.  (b) no helper
-    decides anything by comparing operand values with an absolute
-    tolerance (np.allclose / np.isclose against a constant): whether a
-    prescribed value counts would depend on the units of the data."""
+    """(b) no helper decides anything by comparing operand values with an
+    absolute tolerance (np.allclose / np.isclose against a constant):
+    whether a prescribed value counts would depend on the units of the data.
+    (The former part (a) - "the vector allocated for an omitted x has the
+    dtype of the system" - was withdrawn: since the expansion buffers are
+    allocated in a common type of x and the solution, obligation
+    holds-stored-values of _lossy_stores, the dtype of the default x is
+    immaterial, and demanding it reported a change that leaves the
+    behaviour intact - seed C05-5 on the repaired tree.)"""
     R5 = "C05-R5"
-    n_alloc = 0
     for name in dict.fromkeys(BC_FUNCS + ["_init_bc"]):
         try:
             fn = model.func(U, name)
@@ -743,37 +743,6 @@ def _r5(model, rep):
             continue
         params = set(fn.params())
         for node in walk_no_nested(fn.node):
-            # (a)
-            if isinstance(node, ast.Assign) and len(node.targets) == 1 \
-                    and isinstance(node.targets[0], ast.Name) and \
-                    node.targets[0].id == "x" and "x" in params and \
-                    isinstance(node.value, ast.Call):
-                f = src(node.value.func)
-                if f in ("np.zeros", "np.ones", "np.empty", "np.full"):
-                    n_alloc += 1
-                    dt = [k.value for k in node.value.keywords
-                          if k.arg == "dtype"]
-                    ok = bool(dt) and any(
-                        isinstance(x_, ast.Attribute) and x_.attr == "dtype"
-                        for x_ in ast.walk(dt[0])) or (
-                        bool(dt) and "result_type" in src(dt[0]))
-                    cons = f"{name}:default-x:dtype"
-                    if ok:
-                        rep.ok(R5, cons, f"omitted x allocated with "
-                               f"{src(dt[0])}")
-                    else:
-                        rep.fail(R5, F, name, cons,
-                                 f"'{src(node)[:60]}' allocates the vector "
-                                 f"the solution is expanded into with "
-                                 f"{'the default float type' if not dt else src(dt[0])}"
-                                 f": for a complex system y[I] = solution "
-                                 f"drops the imaginary part and the expanded "
-                                 f"vector no longer satisfies the kept "
-                                 f"equations", node.lineno)
-                elif f.endswith("_like"):
-                    n_alloc += 1
-                    rep.ok(R5, f"{name}:default-x:dtype",
-                           f"omitted x allocated like an operand")
             # (b)
             if isinstance(node, ast.Call) and src(node.func) in (
                     "np.allclose", "np.isclose", "numpy.allclose",
@@ -789,9 +758,6 @@ def _r5(model, rep):
                              f"the units of the problem are treated as "
                              f"zero and the kept equations are no longer "
                              f"satisfied", node.lineno)
-    if n_alloc < 1:
-        raise AnalysisError("no default allocation of the prescribed-value "
-                            "vector found (_init_bc)")
     rep.ok(R5, "bc-helpers:no-absolute-tolerance",
            "no np.allclose / np.isclose on operand values in the boundary "
            "condition helpers")
@@ -1402,9 +1368,6 @@ MUTANTS = [
       "        epsilon = 1e-10 / float(scale)",
       "        epsilon = 1e-10 / np.linalg.norm(d[D], np.inf).astype(float)"),
      "C05-R5"),
-    ("omitted prescribed values default to a float vector",
-     ("skfem/utils.py", "        x = np.zeros(A.shape[0], dtype=A.dtype)",
-      "        x = np.zeros(A.shape[0])"), "C05-R5"),
     ("condense skips the coupling term for 'zero' data",
      ("skfem/utils.py", "            bout = b[I] - A[I][:, D] @ x[D]\n",
       "            bout = b[I]\n            if not np.allclose(x[D], 0.):\n"
@@ -1475,6 +1438,11 @@ MUTANTS = [
       "\n"), None),
 ]
 TWINS = [
+    ("omitted prescribed values default to a float vector (the expansion "
+     "buffers are allocated in a common type: seed C05-5 on the repaired "
+     "tree)",
+     ("skfem/utils.py", "        x = np.zeros(A.shape[0], dtype=A.dtype)",
+      "        x = np.zeros(A.shape[0])")),
     ("direct solver converts before reading the flag",
      (_U, "        if not getattr(A, 'has_canonical_format', True):",
       "        A = A.tocsc()\n        if not A.has_canonical_format:")),
